@@ -207,7 +207,7 @@ class OutputFiles:
         self._text_files: List[TextIO] = []
         self._writers: List[Any] = []
         self._record_writers: Dict[Any, Any] = {}
-        self._record_paths: Set[str] = set()
+        self._used_paths: Set[str] = set()
         self._proxy_files: List[ProxyWriter] = []
         self._proxied = proxied
         self._to_close: List[BinaryIO] = []
@@ -215,6 +215,14 @@ class OutputFiles:
         self._interleaved = interleaved
 
     def open_text(self, path):
+        normalized = _normalized(path)
+        if normalized in self._used_paths:
+            raise OSError(
+                f"Path {path} is needed for more than one output file. "
+                "This is not supported."
+            )
+        if path != "-" and not _is_special_file(path):
+            self._used_paths.add(normalized)
         # TODO
         # - serial runner needs only text_file
         # - parallel runner needs binary_file and proxy_file
@@ -258,19 +266,20 @@ class OutputFiles:
         # The same file(s) may be requested more than once, for example when
         # a demultiplexing adapter is named like the file for reads without
         # adapter. Opening a path again would truncate it and lose records.
-        key = (paths, interleaved)
+        # Different spellings of a path ("x", "./x") are the same file
+        key = (tuple(_normalized(path) for path in paths), interleaved)
         if key in self._record_writers:
             return self._record_writers[key]
-        for path in paths:
-            if path in self._record_paths:
+        for path in key[0]:
+            if path in self._used_paths:
                 # Only some of the files are shared with another writer
                 raise OSError(
                     f"Path {path} is needed for more than one output file. "
                     "This is not supported."
                 )
         # Special files (/dev/null, FIFOs) can be opened more than once
-        self._record_paths.update(
-            path for path in paths if path != "-" and not _is_special_file(path)
+        self._used_paths.update(
+            path for path in key[0] if path != "-" and not _is_special_file(path)
         )
         binary_files = []
         for path in paths:
@@ -322,6 +331,10 @@ class OutputFiles:
                 f.close()
         for bf in self._binary_files_to_close:
             bf.close()
+
+
+def _normalized(path):
+    return os.path.abspath(path) if path != "-" else path
 
 
 def _is_special_file(path) -> bool:
